@@ -141,9 +141,14 @@ fn req(ep: u8, token: &[u8], path: &str, mid: u16) -> CoapRequest<Ep> {
     let mut p = Packet::new();
     p.header.message_id = mid;
     p.set_token(token.to_vec());
-    let mut r = CoapRequest::from_packet(p, Ep(ep));
-    r.set_path(path);
-    r
+    // Uri-Path segments verbatim ("/x" = an empty first segment followed by "x"): the resource name
+    // a registration uses is then exactly `path`, as it is for a notification round
+    if !path.is_empty() {
+        for seg in path.split('/') {
+            p.add_option(coap_lite::CoapOption::UriPath, seg.as_bytes().to_vec());
+        }
+    }
+    CoapRequest::from_packet(p, Ep(ep))
 }
 
 fn apply_real(s: &mut Subject<Ep>, op: &Op) {
@@ -363,7 +368,8 @@ fn probe_remaining(limit: u8, ops: &[Op], path: &str, ep: u8) -> Option<u32> {
 // ------------------------------------------------------------------------------------------
 
 fn dfs_alphabet() -> (Vec<Op>, Vec<String>) {
-    let paths = vec!["a".to_string(), "b/c".to_string(), "never".to_string()];
+    // two resources whose names differ only by a leading empty segment, plus one never registered
+    let paths = vec!["a".to_string(), "/a".to_string(), "never".to_string()];
     let toks = [vec![1u8], vec![2u8, 2]];
     let mut ops = Vec::new();
     for ep in 0..2u8 {
@@ -477,7 +483,7 @@ pub fn run_observe(ctx: &mut Ctx, which: &str) {
         }
     }
     // ---- random long histories over larger alphabets
-    let big_paths: Vec<String> = ["a", "b/c", "x", "", "a/b"].iter().map(|s| s.to_string()).collect();
+    let big_paths: Vec<String> = ["a", "b/c", "x", "", "a/b", "/x", "a/", "/", "A"].iter().map(|s| s.to_string()).collect();
     let nlong = (budget / 20).max(3);
     for i in 0..nlong {
         let len = if level == 0 { 40 } else { 200 };
